@@ -12,7 +12,14 @@ import cmath
 
 import numpy as np
 import numpy.typing as npt
-from scipy.special import sph_harm
+try:
+    from scipy.special import sph_harm
+except ImportError:  # removed from recent scipy in favour of sph_harm_y
+    from scipy.special import sph_harm_y
+
+    def sph_harm(m, n, theta, phi):
+        """scipy.special.sph_harm(m, n, azimuth, polar) expressed with sph_harm_y"""
+        return sph_harm_y(n, m, phi, theta)
 
 # pylint: disable=invalid-name
 # pylint: disable=line-too-long
